@@ -548,7 +548,7 @@ theorem validRoundChangeForData_prepared_root (cfg : Cfg) (sh : Nat) (rc : Lvl1)
     (hv : validRoundChangeForData cfg sh rc h r fd = .ok u) (hp : rc.toBase.rcPrepared = true) : hashData fd = rc.root := by
   unfold validRoundChangeForData at hv
   simp only [bind_eq_ok, rejectIf_eq_ok, wrap_eq_ok, hp, if_true] at hv
-  obtain ⟨_, _, _, _, _, _, _, _, _, _, _, _, _, _, _, h8, _⟩ := hv
+  obtain ⟨_, _, _, _, _, _, _, _, _, _, _, _, _, _, _, _, _, h8, _⟩ := hv
   simpa using h8
 
 /-- the timeout step -/
